@@ -13,6 +13,8 @@ PROP_MODULES = {
     "C12": ["Tramp.Props.C12"],
     "C10": ["Tramp.Props.C10"],
     "C13": ["Tramp.Props.C13", "Tramp.Props.C18"],
+    "C15": ["Tramp.Props.C15"],
+    "C16": ["Tramp.Props.C16"],
 }
 
 # property -> theorem names (in namespace Tramp) = the proof obligations
@@ -33,6 +35,8 @@ OBLIGATIONS = {
         "c13_immediate", "c13_forward", "c13_rewrite_records", "c13_rewrite_bytes",
         "c18_total_fromBytes", "c18_total_tryFrom",
     ],
+    "C15": ["pstep_inv", "c15_some", "c15_none", "c15_err_only_on_fault", "c15_codes", "c15_pinned_counterexample"],
+    "C16": ["pstep_inv", "c16_ok", "c16_err", "c16_pinned_counterexample"],
 }
 
 # suite -> harness parameters
@@ -40,6 +44,7 @@ SUITES = {
     "tlv": {"profiles": ["dev"]},
     "fee": {"profiles": ["dev", "wrapping"]},
     "classify": {"profiles": ["dev"]},
+    "provider": {"profiles": ["dev"]},
 }
 
 # property -> suites whose correspondence it depends on
@@ -48,6 +53,8 @@ PROP_SUITES = {
     "C12": ["fee"],
     "C10": ["classify", "tlv"],
     "C13": ["classify", "tlv"],
+    "C15": ["provider"],
+    "C16": ["provider"],
 }
 
 # protocol op -> properties that a model/implementation divergence on that op un-proves
@@ -57,6 +64,7 @@ OP_PROPS = {
     "get": ["C13", "C10"], "rm": ["C13"],
     "fs": ["C12", "C03", "C06", "C07", "C04"], "ef": ["C12", "C11", "C06"],
     "cl": ["C10", "C13", "C01", "C06"],
+    "pw": ["C15", "C16", "C02", "C05", "C08"], "pa": ["C16", "C19", "C03", "C04"],
 }
 
 PROP_TRUST = {}
